@@ -4715,9 +4715,15 @@ class ParseCtx:
             return OutputStorage(OutputStorageType.ENUM, name, default_value=default_value, enum_values=list(x.value for
                 x in type_obj.children))
         elif type_obj.data == "str_type":
-            return OutputStorage(OutputStorageType.STR, name, default_value=default_value, str_size=self._convert_int(type_obj.children[0].value))
+            str_size = self._convert_int(type_obj.children[0].value)
+            if str_size < 1:
+                raise IllegalParseTree("A string must have room for at least its terminator", type_obj)
+            return OutputStorage(OutputStorageType.STR, name, default_value=default_value, str_size=str_size)
         elif type_obj.data == "unterm_str_type":
-            return OutputStorage(OutputStorageType.STR, name, default_value=default_value, str_size=self._convert_int(type_obj.children[0].value), str_null=False)
+            str_size = self._convert_int(type_obj.children[0].value)
+            if str_size < 0:
+                raise IllegalParseTree("A string cannot have a negative size", type_obj)
+            return OutputStorage(OutputStorageType.STR, name, default_value=default_value, str_size=str_size, str_null=False)
         elif type_obj.data == "raw_type":
             return OutputStorage(OutputStorageType.RAW, name, raw_underlying=type_obj.children[0].value)
         else:
